@@ -206,6 +206,13 @@ impl<'a, 'b> VP<'a, 'b> {
                     }
                     self.out.push(']');
                 }
+                Part::CapFilter(name, cnf) => {
+                    self.out.push_str("[ ");
+                    self.out.push_str(name);
+                    self.out.push_str(" | ");
+                    self.cnf(cnf, depth + 2, false);
+                    self.out.push_str(" ]");
+                }
                 Part::KeysFilter { op, neg, rhs } => {
                     self.out.push_str("[ ");
                     self.kw("keys", &["keys", "KEYS"]);
